@@ -8738,11 +8738,18 @@ fn u128_duration_nanos(nanos: u128) -> Duration {
 impl Deserialize for SystemTime {
     fn deserialize(deserializer: &mut Deserializer<impl Read>) -> Result<Self, SavefileError> {
         let mut temp = deserializer.read_u128()?;
+        let out_of_range = || SavefileError::GeneralError {
+            msg: "Timestamp value out of range for SystemTime".to_string(),
+        };
         if temp >= (1u128 << 127) {
             temp &= (1u128 << 127) - 1; //Before UNIX Epoch
-            return Ok(SystemTime::UNIX_EPOCH - u128_duration_nanos(temp));
+            return SystemTime::UNIX_EPOCH
+                .checked_sub(u128_duration_nanos(temp))
+                .ok_or_else(out_of_range);
         } else {
-            return Ok(SystemTime::UNIX_EPOCH + u128_duration_nanos(temp));
+            return SystemTime::UNIX_EPOCH
+                .checked_add(u128_duration_nanos(temp))
+                .ok_or_else(out_of_range);
         }
     }
 }
